@@ -9,7 +9,14 @@
 (*                   (ts-node/commandeer.ts) forwards changes of exactly    *)
 (*                   these files to update_file_content and then rebuilds   *)
 (*         out     - result of the last rebuild                             *)
-(* Actions: Edit(f, c) (the file changes on disk; if watched:               *)
+(*         bound   - per cached module, the imports that resolved when it    *)
+(*                   was parsed (ParsedModule.imports: resolution is frozen *)
+(*                   into the cached module)                                *)
+(* Actions: Create(f, c) / Delete(f): the file appears / disappears; the    *)
+(*          watch loop subscribes to "change" events only, so nothing is    *)
+(*          forwarded (deviation "createDeleteUnnoticed"; the intended      *)
+(*          design invalidates the file and the modules importing it).      *)
+(*          Edit(f, c) (the file changes on disk; if watched:               *)
 (*          update_file_content_inner) and Rebuild (bundle: get_or_fetch_   *)
 (*          file = cache first, else read + parse + insert).               *)
 (* A content variant is abstract: ok variants differ in a literal that     *)
@@ -19,43 +26,54 @@
 EXTENDS Naturals, Sequences, FiniteSets, TLC
 
 CONSTANTS MaxSteps,
-          Deviations      \* {} = intended design; {"staleOnFailedParse"} = as found in the original code
+          Deviations      \* {} = intended design; "staleOnFailedParse": as found in the original code (fixed);
+                          \* "createDeleteUnnoticed": creations / deletions of files reach the session only through the next
+                          \* re-parse of the importing module (as implemented)
 
 Files == {"entry", "m1", "m2"}
 Variants(f) ==
   CASE f = "entry" -> {"e1", "e2", "ebroken"}               \* e1 / e2: different local literal; both import m1
-    [] f = "m1"    -> {"a1", "a2", "a3imp", "aunres", "abroken"}   \* a3imp re-exports from m2
+    [] f = "m1"    -> {"a1", "a2", "a3imp", "a4imp", "aunres", "abroken"}   \* a3imp / a4imp import from m2
     [] f = "m2"    -> {"b1", "b2", "bbroken"}
+Missing == "missing"                                         \* the file does not exist (only m2 comes and goes)
 Parses(c) == c \notin {"ebroken", "abroken", "bbroken"}
 Imports(f, c) == CASE f = "entry" -> {"m1"}
-                   [] f = "m1" -> IF c \in {"a3imp"} THEN {"m2"} ELSE {}
+                   [] f = "m1" -> IF c \in {"a3imp", "a4imp"} THEN {"m2"} ELSE {}
                    [] OTHER -> {}
+\* module resolution looks at the disk: an import of a file that does not exist does not resolve
+Resolved(f, c, dk) == {g \in Imports(f, c) : dk[g] # Missing}
 
-VARIABLES disk, cache, watched, out, built, steps
-vars == <<disk, cache, watched, out, built, steps>>
+VARIABLES disk, cache, bound, watched, out, built, steps
+vars == <<disk, cache, bound, watched, out, built, steps>>
 
 NoOut == [kind |-> "none", view |-> <<>>]
 
 \* ------------------------------------------------------------------ one build
 \* Load the files reachable from the entry through imports.  Returns [cache, watched, view] where
 \* view[f] = the variant actually used for f, or "unreadable" (not cached and does not parse).
-RECURSIVE Load(_, _, _, _, _)
-Load(todo, ca, wa, view, dk) ==
-  IF todo = {} THEN [cache |-> ca, watched |-> wa, view |-> view]
+RECURSIVE Load(_, _, _, _, _, _)
+\* view[f] = [c |-> content used, b |-> imports that are followed]
+Load(todo, ca, bo, wa, view, dk) ==
+  IF todo = {} THEN [cache |-> ca, bound |-> bo, watched |-> wa, view |-> view]
   ELSE LET f == CHOOSE f \in todo : TRUE IN
-       IF f \in DOMAIN view THEN Load(todo \ {f}, ca, wa, view, dk)
+       IF f \in DOMAIN view THEN Load(todo \ {f}, ca, bo, wa, view, dk)
        ELSE IF ca[f] # "none"
-            THEN Load((todo \ {f}) \cup Imports(f, ca[f]), ca, wa, (f :> ca[f]) @@ view, dk)
+            THEN Load((todo \ {f}) \cup bo[f], ca, bo, wa, (f :> [c |-> ca[f], b |-> bo[f]]) @@ view, dk)
             ELSE \* read_file_content + parse_and_bind
-                 IF Parses(dk[f])
-                 THEN Load((todo \ {f}) \cup Imports(f, dk[f]), [ca EXCEPT ![f] = dk[f]], wa \cup {f}, (f :> dk[f]) @@ view, dk)
-                 ELSE Load(todo \ {f}, ca, wa \cup {f}, (f :> "unreadable") @@ view, dk)
+                 IF dk[f] = Missing
+                 THEN Load(todo \ {f}, ca, bo, wa, (f :> [c |-> "unreadable", b |-> {}]) @@ view, dk)    \* nothing to read, nothing to watch
+                 ELSE IF Parses(dk[f])
+                 THEN LET r == Resolved(f, dk[f], dk) IN
+                      Load((todo \ {f}) \cup r, [ca EXCEPT ![f] = dk[f]], [bo EXCEPT ![f] = r], wa \cup {f},
+                           (f :> [c |-> dk[f], b |-> r]) @@ view, dk)
+                 ELSE Load(todo \ {f}, ca, bo, wa \cup {f}, (f :> [c |-> "unreadable", b |-> {}]) @@ view, dk)
 
 \* The observable result is a function of the contents used (the compiler is deterministic: C10)
 Result(view) == [kind |-> "built", view |-> view]
 
 Init == /\ disk \in [Files -> {"e1", "a1", "b1"}] /\ disk["entry"] = "e1" /\ disk["m1"] = "a1" /\ disk["m2"] = "b1"
         /\ cache = [f \in Files |-> "none"]
+        /\ bound = [f \in Files |-> {}]
         /\ watched = {}
         /\ out = NoOut
         /\ built = FALSE
@@ -69,33 +87,45 @@ UpdateCache(ca, f, c) ==
 
 Rebuild ==
   /\ steps < MaxSteps
-  /\ LET r == Load({"entry"}, cache, watched, <<>>, disk) IN
-     /\ cache' = r.cache /\ watched' = r.watched /\ out' = Result(r.view)
+  /\ LET r == Load({"entry"}, cache, bound, watched, <<>>, disk) IN
+     /\ cache' = r.cache /\ bound' = r.bound /\ watched' = r.watched /\ out' = Result(r.view)
   /\ built' = TRUE
   /\ steps' = steps + 1
   /\ UNCHANGED disk
 
-\* the file changes on disk; the watch loop reacts only for watched files: update + rebuild
+\* the file changes on disk; the watch loop reacts only for watched files: update (re-parse, re-bind) + rebuild
 Edit(f, c) ==
   /\ steps < MaxSteps
-  /\ c # disk[f]
+  /\ c # disk[f] /\ c # Missing /\ disk[f] # Missing
   /\ disk' = [disk EXCEPT ![f] = c]
   /\ IF f \in watched
      THEN LET ca1 == UpdateCache(cache, f, c)
-              r == Load({"entry"}, ca1, watched, <<>>, disk') IN
-          /\ cache' = r.cache /\ watched' = r.watched /\ out' = Result(r.view) /\ built' = TRUE
-     ELSE UNCHANGED <<cache, watched, out>> /\ built' = FALSE      \* nobody rebuilds: out is stale until the next Rebuild
+              bo1 == [bound EXCEPT ![f] = IF Parses(c) THEN Resolved(f, c, disk') ELSE {}]
+              r == Load({"entry"}, ca1, bo1, watched, <<>>, disk') IN
+          /\ cache' = r.cache /\ bound' = r.bound /\ watched' = r.watched /\ out' = Result(r.view) /\ built' = TRUE
+     ELSE UNCHANGED <<cache, bound, watched, out>> /\ built' = FALSE      \* nobody rebuilds: out is stale until the next Rebuild
   /\ steps' = steps + 1
 
-Next == Rebuild \/ \E f \in Files : \E c \in Variants(f) : Edit(f, c)
+\* intended reaction to a file that appears or disappears: forget it and the cached modules that import it
+Invalidate(ca, f) == [g \in Files |-> IF g = f \/ (ca[g] # "none" /\ f \in Imports(g, ca[g])) THEN "none" ELSE ca[g]]
+CreateDelete(f, c) ==
+  /\ disk' = [disk EXCEPT ![f] = c]
+  /\ cache' = IF "createDeleteUnnoticed" \in Deviations THEN cache ELSE Invalidate(cache, f)
+  /\ built' = FALSE
+  /\ steps' = steps + 1
+  /\ UNCHANGED <<bound, watched, out>>
+Create(f, c) == steps < MaxSteps /\ f = "m2" /\ disk[f] = Missing /\ c # Missing /\ CreateDelete(f, c)
+Delete(f)    == steps < MaxSteps /\ f = "m2" /\ disk[f] # Missing /\ CreateDelete(f, Missing)
+
+Next == Rebuild \/ (\E f \in Files : \E c \in Variants(f) : Edit(f, c) \/ Create(f, c)) \/ \E f \in Files : Delete(f)
 Spec == Init /\ [][Next]_vars
 
 \* ------------------------------------------------------------------ the property
-Fresh(dk) == Result(Load({"entry"}, [f \in Files |-> "none"], {}, <<>>, dk).view)
+Fresh(dk) == Result(Load({"entry"}, [f \in Files |-> "none"], [f \in Files |-> {}], {}, <<>>, dk).view)
 \* After every rebuild the output is the one a fresh process would produce for the current files.
 \* (an edit of a file that is not watched triggers no rebuild: built = FALSE until the next Rebuild)
 HistoryIndependent == built => out = Fresh(disk)
 
 \* cache coherence (stronger, inductive): every cached module is the current content of its file
-CacheCoherent == \A f \in Files : cache[f] # "none" => cache[f] = disk[f]
+CacheCoherent == \A f \in Files : cache[f] # "none" => cache[f] = disk[f] /\ bound[f] = Resolved(f, cache[f], disk)
 =============================================================================
